@@ -771,6 +771,9 @@ func (w liveWorld) Gen(seed uint64, tier string) core.Scenario {
 	if tier == "thorough" && r.Chance(1, 5) {
 		n = 100
 	}
+	if r.Chance(1, 600) {
+		n = 3000 // thousands of messages (and chunks) on one listener
+	}
 	s.Stream, s.Sent = genWellFormed(r, s.Opts, n, true)
 	s.Chunks, s.Deltas = genChunks(r, len(s.Stream))
 	return s
